@@ -199,7 +199,7 @@ func runC03(r *mc.Run) {
 			chain := c.Choose("chain", len(chains))
 			sigOver := c.Choose("sigover", 5)
 			reenc := c.Choose("reencode", 12)
-			idv := c.Choose("idversion", 12)
+			idv := c.Choose("idversion", 16)
 			lev := c.Choose("levels", 3)
 			memb := c.Choose("member", 5)
 			sigf := c.Choose("sigfield", 12)
@@ -228,6 +228,10 @@ func runC03(r *mc.Run) {
 				setv("version", `3.0`)
 			case 7:
 				setv("version", `"3"`)
+			case 12, 13, 14, 15:
+				// numbers that are not the whole number the document kind requires, and other spellings of it
+				v := map[int]string{0: "3", 1: "2"}[di]
+				setv("version", map[int]string{12: v + ".5", 13: v + ".999", 14: v + "5e-1", 15: "0" + v}[idv])
 			case 8, 9, 10, 11:
 				// the OTHER document's identifier and / or version: TCB Info is "TDX" / 3, QE Identity is "TD_QE" / 2
 				oid, over := `"TD_QE"`, `2`
